@@ -2,7 +2,7 @@
    Every consumer kind (steps, timeout inserter, hooks, delete, paused-retry) is the same [consume]: receive, wait for the
    lag, filter, handler, acknowledge ([after_lag] is what follows the lag wait; [guarded] the process supervision).
    All statements hold for EVERY state: every world, fault plan, lease and crash flag. *)
-From WF Require Import model.Base model.EngineBase model.Engine proofs.EngineTokens proofs.HandlerFacts.
+From WF Require Import model.Base model.EngineBase model.Engine proofs.EngineTokens proofs.HandlerFacts proofs.Delivery proofs.DeliveryProps.
 
 (* the handler failed (any adapter call or the user function): nothing after it runs — in particular no acknowledgement;
    the operation ends in the handler's final state with the handler's error *)
@@ -35,3 +35,25 @@ Theorem C07_ack_moves_cursor : forall u idx e s,
   w_cur (o_w (snd (p_ack u idx e s))) = w_cur (o_w s) \/ get_cursor (o_w (snd (p_ack u idx e s))) u = S idx.
 Proof. exact ack_moves_cursor. Qed.
 Print Assumptions C07_ack_moves_cursor.
+
+(* FAILURES ARE REDELIVERED. For every configuration and every history (any faults, crashes, lease revocations, rewinds,
+   duplicated deliveries, stale reads — no hypothesis at all): the committed position of a consumer never passes an event of
+   its topic unless its filter excluded the event or its handler ran to completion on it ([has_wit]: the evidence the nil
+   return leaves in the trace, per consumer kind) ... *)
+Theorem C07_never_skipped : forall c ops u j e,
+  (j < get_cursor (fst (run_ops c ops)) u)%nat -> nth_error (w_log (fst (run_ops c ops))) j = Some e ->
+  e_topic e = unit_topic u -> unit_filter u e = false -> has_wit u e (snd (run_ops c ops)).
+Proof. exact position_never_passes_unhandled. Qed.
+Print Assumptions C07_never_skipped.
+
+(* ... and Recv hands out the FIRST event of the topic at or after the committed position: an event that was not acknowledged is
+   the next one delivered under that name *)
+Theorem C07_recv_first_unacked : forall t l pos idx e, next_event t l 0 pos = Some (idx, e) ->
+  nth_error l idx = Some e /\ e_topic e = t /\ (pos <= idx)%nat /\
+  (forall j e', (pos <= j)%nat -> (j < idx)%nat -> nth_error l j = Some e' -> e_topic e' <> t).
+Proof.
+  intros t l pos idx e H. destruct (next_event_spec t l 0 pos idx e H) as (_ & A & B & C & D).
+  rewrite Nat.sub_0_r in A. split; [exact A|]. split; [exact B|]. split; [exact C|].
+  intros j e' H1 H2 H3. apply (D j e'); try lia. rewrite Nat.sub_0_r. exact H3.
+Qed.
+Print Assumptions C07_recv_first_unacked.
